@@ -233,6 +233,10 @@ theorem stepPool_invG {c : Cfg} {s t : St} {a : Act} (hs : 1 ≤ c.standby) (hm 
     · rw [hq.2]; exact hi.spE
     · rw [hq.2]; exact hi.spL
     · exact genWorker_good m (hi.good ((genWorker_closed c s m) ▸ hc) (hq.1 ▸ hqq))
+  case notify =>
+    step_split h
+    · exact ⟨hi.noX, hi.spE, hi.spL, fun _ _ => Or.inr (Or.inl rfl)⟩
+    · exact ⟨hi.noX, hi.spE, hi.spL, hi.good⟩
   all_goals simp at h
 
 /-- Good survives a submission changing its own entry, as long as that entry was not the token poster -/
